@@ -27,4 +27,4 @@ def explore(ctx):
                        'oracle: schoolbook product reduced with x^3=x+1, x^4=x^2+x, __int128']
     for n in ('c09_native', 'c09_w2', 'c09_w4'):
         if n in ctx.bins:
-            ctx.run_step(n, ctx.bins[n])
+            ctx.run_step(n, ctx.bins[n], ['--lits', ctx.lits_arg()])
